@@ -65,7 +65,7 @@ def reference_kinematics(top, events: dict[int, np.ndarray]) -> tuple[dict[str, 
         out[mass_name(top, eid)] = np.sqrt(np.maximum(mass2(psum), 0.0))
         info[mass_name(top, eid)] = {"kind": "mass", "ids": ids, "energy": psum[:, 0]}
 
-    def rec(node, momenta, gamma_acc, sin_min=None):
+    def rec(node, momenta, gamma_acc, sin_min=None, pt_zero=None):
         h, src, decaying = angle_source(top, node)
         psrc = sum(momenta[i] for i in attached(top, src))
         phi, theta, r = polar_angles(psrc)
@@ -75,7 +75,7 @@ def reference_kinematics(top, events: dict[int, np.ndarray]) -> tuple[dict[str, 
         sin_here = np.abs(np.sin(theta))
         sin_chain = sin_here if sin_min is None else np.minimum(sin_min, sin_here)
         cond = {"kind": "angle", "node": node, "source_edge": src, "named_after": h, "sin_theta": np.sin(theta), "p": r,
-                "sin_chain_min": sin_chain,
+                "sin_chain_min": sin_chain, "ancestor_pt_exactly_zero": np.zeros(len(r), dtype=bool) if pt_zero is None else pt_zero,
                 "gamma_chain": gamma_acc, "both_children_decay": len(decaying) == 2, "scale": sum(momenta[i][:, 0] for i in momenta)}
         info["phi" + suf] = cond
         info["theta" + suf] = cond
@@ -87,7 +87,9 @@ def reference_kinematics(top, events: dict[int, np.ndarray]) -> tuple[dict[str, 
             sub = {i: project(boost_to_rest(momenta[i], pc), ax) for i in ids}
             _, th_c, _ = polar_angles(pc)
             sc = np.abs(np.sin(th_c))
-            rec(top.edges[c].ending_node_id, sub, gamma_acc * pc[:, 0] / mc, sc if sin_min is None else np.minimum(sin_min, sc))
+            ptz = (pc[:, 1] == 0) & (pc[:, 2] == 0)
+            rec(top.edges[c].ending_node_id, sub, gamma_acc * pc[:, 0] / mc, sc if sin_min is None else np.minimum(sin_min, sc),
+                ptz if pt_zero is None else (pt_zero | ptz))
 
     init = next(iter(top.incoming_edge_ids))
     n = len(next(iter(events.values())))
